@@ -108,6 +108,31 @@ def _fraction_part(part):
             want = qa.numerator / q_of(newden)
             if r[0] != "ok" or b.x != want:
                 part.violation("C18:Fraction:%s.denominator = %r" % (_fr_expr(ta), newden), {"got": repr(b), "outcome": repr(r), "want": str(want)})
+        # histories on ONE object: read it (float / str / comparison), edit it in place through every edit form (the two
+        # property setters and the index form f[0] = v / f[1] = v), read it again: an edited fraction behaves exactly as
+        # the fraction built anew from the same numerator and denominator (nothing remembered from before the edit)
+        for form, key in (("numerator = %r", 0), ("[0] = %r", 0), ("denominator = %r", 1), ("[1] = %r", 1)):
+            for v in (5, -3, 0.5, 4):
+                if form.startswith("[") and isinstance(v, float):
+                    continue  # (the index form takes integers only: a float there fails loudly with a TypeError, outside this property)
+                part.count("evaluations")
+                b = a.copy()
+                reads_before = (float(b), str(b), b == a, tuple(b), repr(b))
+                nd = [b.numerator, b.denominator]
+                nd[key] = v
+                try:
+                    if form.startswith("["):
+                        b[key] = v
+                    else:
+                        setattr(b, "numerator" if key == 0 else "denominator", v)
+                    fresh = Fraction(*nd)
+                    obs = lambda f: (float(f), str(f), repr(f), tuple(f), float(f + 1), float(f * 2), f == Fraction(*nd), f < Fraction(*nd), f > a, abs(f) == abs(Fraction(*nd)))  # noqa: E731
+                    got, want2 = obs(b), obs(fresh)
+                except Exception as e:
+                    got, want2 = repr(e), None
+                if got != want2:
+                    part.violation("C18:Fraction:%s read, then .%s, then read again: differs from the fraction built anew" % (_fr_expr(ta), form % (v,)), {"edited": got, "built_anew": want2, "reads_before": reads_before},
+                                   pre + "f = %s\nfloat(f); str(f)\nf%s\ng = Fraction(%r, %r)\nprint(float(f), float(g), str(f), str(g)); assert float(f) == float(g) and str(f) == str(g)\n" % (_fr_expr(ta), ("." if not form.startswith("[") else "") + form % (v,), nd[0], nd[1]))
         # binary with fractions
         for tb in FR:
             qb = q_of(*tb)
@@ -205,6 +230,33 @@ def _fraction_value_part(task):
                         if not (second == fv) or float(plain) != 7.0 or float(FractionValue(7)) != 7.0 or float(FractionValue.CreateFromFloat(7.0)) != 7.0:
                             part.violation(sig + ":a parsed value edited by the caller changes what is parsed / created afterwards", {"second": repr(second), "plain 7": repr(plain)},
                                            pre + "a = FractionValue.CreateFromString('5')\na.fraction.numerator = 3; a.fraction.denominator = 4\nb = FractionValue.CreateFromString('7')\nprint(repr(b), float(b)); assert float(b) == 7.0\n")
+                # one FractionValue read, edited in place (through the value's setters, or through the Fraction object it
+                # hands out: setters and index form), and read again: equal in every observable to the value built anew
+                if den in (2, 4) and n in (0, 2, -3):
+                    for ename, edit, newargs in (
+                        ("v.fraction.numerator = 3", lambda v: setattr(v.fraction, "numerator", 3), lambda n0, u0, d0: (n0, (3, d0))),
+                        ("v.fraction[0] = 3", lambda v: v.fraction.__setitem__(0, 3), lambda n0, u0, d0: (n0, (3, d0))),
+                        ("v.fraction.denominator = 8", lambda v: setattr(v.fraction, "denominator", 8), lambda n0, u0, d0: (n0, (u0, 8))),
+                        ("v.fraction[1] = 8", lambda v: v.fraction.__setitem__(1, 8), lambda n0, u0, d0: (n0, (u0, 8))),
+                        ("v.GetFraction()[0] = 3", lambda v: v.GetFraction().__setitem__(0, 3), lambda n0, u0, d0: (n0, (3, d0))),
+                        ("v.number = 9", lambda v: setattr(v, "number", 9), lambda n0, u0, d0: (9, (u0, d0))),
+                        ("v.SetFraction((3, 8))", lambda v: v.SetFraction((3, 8)), lambda n0, u0, d0: (n0, (3, 8))),
+                        ("v.fraction = Fraction(3, 8)", lambda v: setattr(v, "fraction", Fraction(3, 8)), lambda n0, u0, d0: (n0, (3, 8))),
+                    ):
+                        part.count("evaluations")
+                        v1 = FractionValue(n, (num, den))
+                        before = (float(v1), str(v1), v1 == fv, v1 < fv)
+                        u0, d0 = v1.fraction.numerator, v1.fraction.denominator
+                        try:
+                            edit(v1)
+                            anew = FractionValue(*newargs(n, u0, d0))
+                            obs = lambda w: (float(w), str(w), repr(w), w.GetLabel() if hasattr(w, "GetLabel") else None, w == anew, w < fv, w > fv, w <= anew, float(w + 1) if hasattr(w, "__add__") else None)  # noqa: E731
+                            got, want2 = obs(v1), obs(FractionValue(*newargs(n, u0, d0)))
+                        except Exception as e:
+                            got, want2 = repr(e), None
+                        if got != want2:
+                            part.violation(sig + ":read, then %s, then read again: differs from the value built anew" % ename, {"edited": got, "built_anew": want2, "reads_before": before},
+                                           pre + "v = FractionValue(%r, (%r, %r))\nfloat(v); str(v)\n%s\nw = FractionValue(*%r)\nprint(float(v), float(w), str(v), str(w)); assert float(v) == float(w) and str(v) == str(w)\n" % (n, num, den, ename, newargs(n, u0, d0)))
                 if num != 0:
                     part.add("nontrivial", (n, num, den))
                 part.add("outcomes", ("fv", float(want) < 0, num == 0))
